@@ -466,11 +466,12 @@ impl<'a> Parser<'a> {
 
     #[inline]
     fn starts_ci(&self, kw: &str) -> bool {
-        let end = self.i + kw.len();
-        if end > self.b.len() {
-            return false;
+        // Compare bytes: `self.i + kw.len()` may fall inside a multi-byte character, where
+        // slicing the `str` would panic.
+        match self.b.get(self.i..self.i + kw.len()) {
+            Some(head) => head.eq_ignore_ascii_case(kw.as_bytes()),
+            None => false,
         }
-        self.s[self.i..end].eq_ignore_ascii_case(kw)
     }
 
     /// Attempt to parse a sexagesimal literal: hh:mm[:ss[.frac]]
